@@ -231,6 +231,8 @@ def enum_arms(fn, facts, pred):
         if ty:
             ty = ty.lstrip("&").replace("mut ", "").strip()
         adt = facts.adts.get(ty) if ty else None
+        if not adt and ty:
+            adt = facts.adts.get(ty.split("<")[0])     # `Event<'_>`
         if not adt:
             return None
         names = {str(v): n for n, v in adt.get("discrs", [])}
